@@ -6,6 +6,11 @@
        slot := (s alt…)          -- one reported error; several alts = Go's map iteration picks one
        alt  := (p|x "message" "L:C"…)   -- p primary, x secondary (all errors *before* the filter
                                         -- of validator.go:82-91; the harness applies the filter)
+    (schemanew (sdef …))                         → (sn accept|reject (typed ok|bad) (nulldefaults ok|bad) (intro -) (desc -) (roots -))
+    (schemanew (sdef …) (feature…) (schema …))   → … (intro ok|bad) (desc same|differs) (roots ok|bad)
+       the model of schema.New on a schema definition (SchemaNew.lean); with the description exported from the
+       real schema object for a request with these features: Intro.ok of its introspection part, describe =
+       the exported description, the root types are visible to the request
   Anything else → bad-op.
 -/
 import ApiFu.Common.Sexp
@@ -14,6 +19,7 @@ import ApiFu.C04.Wire
 import ApiFu.C04.Spec
 import ApiFu.C04.Model
 import ApiFu.C04.Hyp2
+import ApiFu.C04.SchemaNew
 
 open ApiFu ApiFu.C04
 
@@ -42,6 +48,20 @@ def handle (st : St) (line : String) : St × String :=
        (st, toString (Sexp.node "r" [spec, model, hyp]))
      | none, _ => (st, "no-schema")
      | _, none => (st, "bad-doc"))
+  | some (Sexp.list [Sexp.atom op, d]) =>
+    if op == "schemanew" then
+      (match SchemaNew.sdef? d with
+       | some D => (st, toString (SchemaNew.answer D none))
+       | none => (st, "bad-sdef"))
+    else (st, "bad-op")
+  | some (Sexp.list [Sexp.atom op, d, Sexp.list feats, s]) =>
+    if op == "schemanew" then
+      (match SchemaNew.sdef? d, Wire.atoms? feats, Wire.schema? s with
+       | some D, some rf, some S => (st, toString (SchemaNew.answer D (some (rf, S))))
+       | none, _, _ => (st, "bad-sdef")
+       | _, none, _ => (st, "bad-features")
+       | _, _, none => (st, "bad-schema"))
+    else (st, "bad-op")
   | _ => (st, "bad-op")
 
 def main : IO Unit := lineLoop handle {}
